@@ -30,6 +30,9 @@ package meta
 //@   modifies @searchState
 //@   ensures result != nil
 //@   ensures (e.boundedBacktracker != nil && result.backtracker != nil) ==> result.backtracker.Longest == e.longest
+// ASSUMED: the per-search PikeVM handed out simulates e's pattern in e's current mode
+//@   trust ensures result.pikevm != nil && (forall h []byte, at int :: pvFoundAt(result.pikevm, h, at) == refFound(e, e.longest, h, at))
+//@   trust ensures e.boundedBacktracker != nil ==> result.backtracker != nil
 
 //@ func (*Engine).putSearchState
 //@   props C13 C07
@@ -401,3 +404,23 @@ package meta
 //@   ghost viaNFA = false
 //@   after call SearchAt: ghost viaNFA = true
 //@   ensures old(e.longest) ==> viaNFA
+
+// ---- C01: the boolean dispatch layer, relative to ASSUMED leaf contracts (each engine decides the reference: pvFoundAt,
+// btFound, named by uninterpreted functions and linked to the engine's reference by leafOK) and the ASSUMED prefilter link
+// (every match starts at a prefilter candidate: C17 for the engine's literal set) ----
+//@ axiom refModeFound: forall e *Engine, h []byte, at int :: refFound(e, true, h, at) == refFound(e, false, h, at)
+//@ spec func pfLink(e *Engine) bool = e.prefilter != nil ==> ((forall l bool, h []byte, at int :: refFound(e, l, h, at) ==> pfOcc(e.prefilter, h, refStart(e, l, h, at))) && (forall h []byte, i int :: pfOcc(e.prefilter, h, i) ==> 0 <= i && i < len(h)))
+//@ spec func btLink(e *Engine) bool = e.boundedBacktracker != nil ==> (forall l bool, h []byte, at int :: btFound(e.boundedBacktracker, l, h, at) == refFound(e, l, h, at))
+//@ spec func leafOK(e *Engine) bool = engineOK(e) && pfLink(e) && btLink(e)
+//@ func (*Engine).isMatchNFA
+//@   props C01 C11
+//@   opt safety=off
+//@   requires leafOK(e)
+//@   modifies @searchState
+//@   ensures result == refFound(e, e.longest, haystack, 0)
+//@   after call Find: lastcall == -1 ==> !refFound(e, e.longest, haystack, at)
+//@   after call Find: lastcall >= 0 ==> (refFound(e, e.longest, haystack, at) ==> refFound(e, e.longest, haystack, lastcall))
+//@   loop 1: invariant 0 <= at && e.longest == old(e.longest) && state != nil && state.pikevm != nil
+//@   loop 1: invariant refFound(e, e.longest, haystack, 0) ==> refFound(e, e.longest, haystack, at)
+//@   loop 1: invariant forall h []byte, p int :: pvFoundAt(state.pikevm, h, p) == refFound(e, e.longest, h, p)
+//@   loop 1: invariant e.boundedBacktracker != nil ==> state.backtracker != nil && state.backtracker.Longest == e.longest
